@@ -161,8 +161,16 @@ def check(pid, tier='quick', seed=0):
         seen.add(sig)
         payload = dict(property=pid, kind='bounded', clause=f.get('clause'), detail=f.get('detail'), signature=sig,
                        case=f['case'], source_sha256=loader.hashes(loader.used_modules()))
+        # contract family: name the obligations of the same function that lost their proof on this tree
+        lost = []
+        blob = json.dumps(f)
+        for v in undecided:
+            keys = getattr(v, 'confirm', None) or [v.fn.split('.')[-1]]
+            if v.fn and any(k and k in blob for k in keys) and 'may-write' not in str(v.detail) and 'may share' not in str(v.detail):
+                lost.append(f'{v.fn}:{v.name}'[:110])
+        payload['obligations_without_proof_on_this_tree'] = lost[:10]
         path = write_replay(pid, sig, payload)
-        violations.append(f'VIOLATION property={pid} replay={path} clause={f.get("clause")}')
+        violations.append(f'VIOLATION property={pid} replay={path} clause={f.get("clause")}' + (f' lost_proof={lost[0].replace(" ", "_")}' if lost else ''))
     for l in known_lines:
         print(l)
     for v in undecided:
